@@ -11,7 +11,12 @@ Top-level clauses (from the property statement, oracle = reference model below, 
                         origins lie in its own row).  'blank all' ends the table at the first row in
                         which EVERY cell of the sheet row is blank: a 'margin-note row' (blank in
                         the titled columns, text in a blank-titled margin column) does not end it.
-                        For such a row of a plain sheet only this is demanded: its entry is None,
+                        Key attributes (_NUM_ID_ATTRS = n >= 1): XlsObject.construct documents None
+                        only when the WHOLE id is blank; a row in which at least one id cell (after
+                        ladder filling) is filled must produce an object, its blank id parts
+                        converted like any blank cell.  The entry of a row whose whole id is blank
+                        is not pinned down (None, a matching object, or absent).
+                        For a margin-note row of a plain sheet only this is demanded: its entry is None,
                         an object that matches its (blank) cells, or absent; the rows after it are
                         still produced.  In a ladder sheet it is an ordinary row (all cells 'same
                         as above').
@@ -242,6 +247,18 @@ class Model:
             else:
                 self.runs.append([c])
         self.has_ranged = any(a['kind'] == 'ranged' for a in self.attrs)
+        # key attributes: the first num_id attributes of the class
+        self.num_id = int(case['num_id'])
+        self.id_cols = [self.col_of.get(a.get('column')) if a['kind'] == 'cell' else None
+                        for a in self.attrs[:self.num_id]]
+
+    def id_blank_parts(self, r):
+        """-> (number of blank id cells of data row r after ladder filling, number of id cells)"""
+        n = 0
+        for c in self.id_cols:
+            sr, sc = self.src[(r, c)]
+            n += blank(self.grid[sr][sc])
+        return n, len(self.id_cols)
 
     def filled_grid(self):
         g = [list(row) for row in self.grid]
@@ -301,18 +318,9 @@ def preconditions(case, m=None):
                 nxt = next((c for c in range(e + 1, m.ncols) if m.titles[c] and c not in m.unknown_cols), None)
                 if nxt is not None and blank(row[nxt]):
                     return 'ladder run stopped by an unread column'
-    first = m.attrs[0]
-    first_is_cell = first['kind'] == 'cell' and first['column'] in m.col_of
-    if case['num_id']:
-        if not first_is_cell:
+    if m.num_id:
+        if m.num_id > len(m.attrs) or any(c is None for c in m.id_cols):
             return 'key attribute is not read from a cell'
-        c = m.col_of[first['column']]
-        for r in m.data_rows:
-            if r in m.gap_rows and not m.ladder:
-                continue
-            sr, sc = m.src[(r, c)]
-            if blank(m.grid[sr][sc]):
-                return 'blank key'
     for a in m.attrs:
         if a['kind'] == 'ranged' and not m.runs and 'default' not in a:
             return 'required ranged attribute without columns'
@@ -459,13 +467,19 @@ def check_objects(case, m, objs):
                         f"{what} of the object of row {r + 1}: origin {o_txt} is not in the object's row "
                         f"(expected {coord(exp)})"))
 
-    gaps = [] if lad else m.gap_rows        # plain sheets: the entry of a margin-note row is not pinned down
+    # rows whose entry is not pinned down: margin-note rows of plain sheets, rows whose whole id is blank
+    gaps = [] if lad else list(m.gap_rows)
+    if m.num_id:
+        for r in m.data_rows:
+            nb, n = m.id_blank_parts(r)
+            if nb == n and r not in gaps:
+                gaps.append(r)
     rows = m.data_rows
     if len(objs) == len(m.data_rows):
         pass
     elif gaps and len(objs) == len(m.data_rows) - len(gaps):
         rows = [r for r in m.data_rows if r not in gaps]
-        diags.append("rows blank in all titled columns are skipped without an entry")
+        diags.append("rows blank in all titled columns / with a wholly blank id are skipped without an entry")
     else:
         kind = 'too-few' if len(objs) < len(m.data_rows) else 'too-many'
         if len(objs) in [m.data_rows.index(g) for g in m.gap_rows]:
@@ -478,10 +492,16 @@ def check_objects(case, m, objs):
     for i, (o, r) in enumerate(zip(objs, rows)):
         if o is None and r in gaps:
             continue
-        if r in gaps and case['num_id']:
-            diags.append("a row with a blank key produced an object instead of None")
+        if r in gaps and m.num_id and all(m.grid[m.src[(r, c)][0]][c] is None for c in m.id_cols):
+            diags.append("a row whose id cells are all empty produced an object instead of None")
         if o is None or not isinstance(o, xlsread.XlsObject):
-            out.append(('one_object_per_row', 'not-an-object', f"entry {i} (row {r + 1}) is {o!r}"))
+            kind = 'not-an-object'
+            if o is None and m.num_id >= 2 and 0 < m.id_blank_parts(r)[0] < m.num_id:
+                kind = 'none-for-partly-blank-id'
+            out.append(('one_object_per_row', kind,
+                        f"entry {i} (row {r + 1}) is {o!r}" + (
+                            f"; _NUM_ID_ATTRS={m.num_id}, id cells "
+                            f"{[m.grid[m.src[(r, c)][0]][c] for c in m.id_cols]}" if m.num_id else '')))
             continue
         for a in m.attrs:
             name = a['name']
@@ -760,6 +780,17 @@ def features(case, m):
         ev.add('first-attribute-not-read-from-a-cell')
     if case['num_id']:
         ev.add('class-with-key-attribute')
+        if m.num_id >= 2 and all(c is not None for c in m.id_cols):
+            ev.add(f'class-with-{m.num_id}-attribute-id')
+            for r in m.data_rows:
+                nb, n = m.id_blank_parts(r)
+                if 0 < nb < n:
+                    ev.add('partly-blank-multi-attribute-id')
+                    if m.ladder and any(m.src[(r, c)] != (r, c) for c in m.id_cols):
+                        ev.add('ladder-row-inheriting-part-of-a-partly-blank-id')
+        if all(c is not None for c in m.id_cols) and any(
+                m.id_blank_parts(r)[0] == m.num_id and (m.ladder or r not in m.gap_rows) for r in m.data_rows):
+            ev.add('row-with-wholly-blank-id')
     return ev
 
 
@@ -874,7 +905,12 @@ def gen_case(layout, rng):
         # rarely: the first attribute of the class is not read from a single cell
         j = next(i for i, a in enumerate(attrs) if a in extra_attrs)
         attrs.insert(0, attrs.pop(j))
-    num_id = 1 if (not odd_first and rng.random() < 0.3) else 0
+    # key attributes: only leading attributes that are read from a present column can be id parts
+    present_cols = {p[1] for p in present}
+    lead = 0
+    while lead < len(attrs) and attrs[lead]['kind'] == 'cell' and attrs[lead]['column'] in present_cols:
+        lead += 1
+    num_id = min(lead, rng.choice([0, 0, 0, 0, 0, 1, 1, 2, 2, 2, 3]))
 
     ncols = len(cols)
     ft = next(c for c in range(ncols) if cols[c]['role'] != 'blank')
@@ -889,7 +925,7 @@ def gen_case(layout, rng):
             if prev not in ('group', 'unknown'):
                 valid_stop.append(c)
     known_cols = [c for c in range(ncols) if cols[c]['role'] == 'known']
-    key_col = next((c for c in range(ncols) if cols[c]['title'] == attrs[0].get('column')), None)
+    id_cols = [next(c for c in range(ncols) if cols[c]['title'] == a['column']) for a in attrs[:num_id]]
 
     grid = []
     for _ in range(rng.choice([0, 0, 1, 2])):
@@ -959,18 +995,30 @@ def gen_case(layout, rng):
             c = rng.choice(known_cols)
             row[c] = _nonblank(rng, cols[c]['type'])
         grid.append(row)
-    if num_id and key_col is not None:
+    if num_id:
+        # ids: usually at least one id cell filled (after ladder filling); parts of a multi-attribute id stay
+        # blank as drawn; now and then the whole id is left blank
         first_data = len(grid) - n_rows
+        prev = None
         for i in range(n_rows):
             r = first_data + i
-            if i in gap_idx:
-                continue
-            held = not blank(grid[r][key_col])
-            if ladder and i > 0 and not held:
-                # substituted from above iff every cell from the first titled column up to it is blank
-                held = all(blank(grid[r][c]) for c in range(ft, key_col + 1))
-            if not held:
-                grid[r][key_col] = _nonblank(rng, cols[key_col]['type'])
+
+            def filled_row():
+                f = list(grid[r])
+                if ladder and prev is not None:
+                    for c in range(ft, ncols):
+                        if blank(grid[r][c]):
+                            f[c] = prev[c]
+                        else:
+                            break
+                return f
+            f = filled_row()
+            if not (i in gap_idx and not ladder):
+                if all(blank(f[c]) for c in id_cols) and rng.random() >= 0.08:
+                    c = rng.choice(id_cols)
+                    grid[r][c] = _nonblank(rng, cols[c]['type'])
+                    f = filled_row()
+            prev = f
     # end row and trailing content
     trailing = rng.choice(['none', 'end-only', 'content', 'content'])
     if trailing != 'none':
@@ -1024,12 +1072,31 @@ def margin_note_probe_case():
         'num_id': 1, 'stop_on': 'blank all', 'ladder': False}
 
 
+def partial_id_probe_case():
+    """two-attribute id, rows in which one part of the id is blank, one row with a wholly blank id"""
+    _ = None
+    return {'title': 's', 'grid': [
+        [_, _, _, _],
+        ['Name', 'No', 'comment', 'Dept'],
+        ['ann', 1, _, 'A'],
+        ['bob', 2, 'no dept', _],
+        ['cid', _, _, 'B'],
+        ['dan', _, _, _],
+        ['eve', 0, _, 'B']],
+        'attrs': [{'name': 'dept', 'kind': 'cell', 'column': 'Dept', 'reader': 'str'},
+                  {'name': 'no', 'kind': 'cell', 'column': 'No', 'reader': 'int'},
+                  {'name': 'name', 'kind': 'cell', 'column': 'Name', 'reader': 'str'}],
+        'num_id': 2, 'stop_on': 'blank all', 'ladder': False}
+
+
 REACH = ['ladder-run>=2-cells-over>=2-rows', 'missing-optional-column', 'range-crossing-Z/AA',
          'external-attribute', 'ranged-attribute-without-columns', 'unknown-extra-column', 'blank-titled-column',
          'leading-blank-rows', 'trailing-content-after-end-row', 'end-row-with-content', 'table-ends-with-sheet',
          'range-first', 'range-between', 'range-last', 'ladder-substituted-column-group', 'blank-data-cell',
          'optional-column-present', 'class-with-key-attribute', 'margin-note-row-then-data',
-         'ladder-margin-note-row-then-data', 'margin-note-outside-the-titled-span-then-data', 'margin-note-row-last']
+         'ladder-margin-note-row-then-data', 'margin-note-outside-the-titled-span-then-data', 'margin-note-row-last', 'class-with-2-attribute-id', 'class-with-3-attribute-id',
+         'partly-blank-multi-attribute-id', 'ladder-row-inheriting-part-of-a-partly-blank-id',
+         'row-with-wholly-blank-id']
 
 
 def variants(tier):
@@ -1071,7 +1138,8 @@ def run(b):
     rejected = {}
     # fixed members of the space first: the 29-column sheet of Appendix A, the smallest external-first rule
     # set, a 'blank all' table with a margin note next to a gap row
-    results = [[_one(defect_probe_case()), _one(first_attr_probe_case()), _one(margin_note_probe_case())]]
+    results = [[_one(defect_probe_case()), _one(first_attr_probe_case()), _one(margin_note_probe_case()),
+                _one(partial_id_probe_case())]]
     ctx = multiprocessing.get_context('fork')
     with ctx.Pool(min(12, max(1, (multiprocessing.cpu_count() or 2) - 2))) as pool:
         results += pool.map(_work, jobs, chunksize=1)
